@@ -21,7 +21,8 @@ EXPLANATION = (
     "histogram slice with at least two entries; the matcher interface (Matcher, Sequence, "
     "FrameCompressor::new_with_matcher) is effectively public and the generic compress path reaches the same "
     "compress_block as the built-in matcher; the frame header advertises at least the window the matcher reports "
-    "(shared with C14.layout.frame-header-writer); the explicit panic constructs reachable from compress() are exactly the "
+    "(the descriptor byte is evaluated as a function of the reported window over every exponent / mantissa boundary up to 2^41 and "
+    "decoded with the RFC formula; shared with C14.layout.frame-header-writer); the explicit panic constructs reachable from compress() are exactly the "
     "reviewed sites — including calls of value-partial std functions (ilog2, Vec::remove, drain, ...) — each classified "
     "matcher-contract / API-misuse / level-unimplemented / arithmetic; Huffman coding of the literals is attempted only when "
     "they contain two distinct byte values (F11); every CompressState field written on the compress_block path is "
